@@ -45,9 +45,22 @@ struct Anchored {
 	bool operator!=(const Anchored &o) const { return get() != o.get(); }
 };
 static_assert(std::is_trivially_destructible_v<Anchored> && !std::is_trivially_copyable_v<Anchored>);
+// Trivially copyable, but equality is not bytewise: two values are equal when they agree modulo 16.
+struct Fuzzy {
+	int v;
+	Fuzzy() : v(0) {}
+	Fuzzy(int x) : v(x) {}
+	bool operator==(const Fuzzy &o) const { return (v & 15) == (o.v & 15); }
+	bool operator!=(const Fuzzy &o) const { return !(*this == o); }
+};
+static_assert(std::is_trivially_copyable_v<Fuzzy>);
+using verif::payload;
+int payload(const Fuzzy &f) { return f.v; }
+template<typename T> bool elem_eq(int a, int b) { return T(a) == T(b); }
 int payload(const Anchored &a) { return a.get(); }
 template<typename T> struct Name;
 template<> struct Name<Anchored> { static constexpr const char *n = "Anchored"; };
+template<> struct Name<Fuzzy> { static constexpr const char *n = "Fuzzy"; };
 template<> struct Name<int> { static constexpr const char *n = "int"; };
 template<> struct Name<Tracked> { static constexpr const char *n = "Tracked"; };
 
@@ -91,7 +104,7 @@ void run_vector(Ctx &c) {
 	std::vector<int> ref[S];
 	Flags f;
 	size_t peak[S] = {0, 0, 0};
-	slot[0] = c.make<V>(track_alloc{});
+	slot[0] = c.make<V>(track_alloc{7});
 	c.op("vector<%s>", Name<T>::n);
 	int nextv = 1;
 
@@ -123,7 +136,7 @@ void run_vector(Ctx &c) {
 		if(!slot[s]) s = 0;
 		V &v = *slot[s];
 		size_t before = ref[s].size();
-		unsigned op = t.pick(18);
+		unsigned op = t.pick(19);
 		switch(op) {
 		case 0: { int x = nextv++; T e(x); c.op("v%d.push(const& %d)", s, x); T &r = v.push(e); ref[s].push_back(x); VCHECK(c, "C13", &r == &v[v.size() - 1], "push returned a reference to another element"); break; }
 		case 1: { int x = nextv++; T e(x); c.op("v%d.push(&& %d)", s, x); v.push(std::move(e)); ref[s].push_back(x); break; }
@@ -143,8 +156,19 @@ void run_vector(Ctx &c) {
 			std::vector<int> old = ref[s]; *slot[d] = std::move(v); ref[d] = old; resync(v, ref[s]); break; }
 		case 14: { int d = t.pick(S); if(!slot[d]) break; c.op("swap(v%d, v%d)", s, d); if(!ref[d].empty() && !ref[s].empty() && d != s) f.pair_op_nonempty = true; swap(v, *slot[d]); std::swap(ref[s], ref[d]); break; }
 		case 15: { int d = t.pick(S); if(!slot[d]) break; c.op("v%d == v%d", s, d); bool eq = v == *slot[d], ne = v != *slot[d];
-			VCHECK(c, "C13", eq == (ref[s] == ref[d]) && ne == !eq, "operator== gives %d and != gives %d, reference equality is %d", (int)eq, (int)ne, (int)(ref[s] == ref[d])); break; }
-		case 16: if(!ref[s].empty()) { size_t k = t.pick(ref[s].size()); int x = nextv++; c.op("v%d[%zu] = %d", s, k, x); v[k] = T(x); ref[s][k] = x; } break;
+			bool exp = ref[s].size() == ref[d].size(); for(size_t k = 0; exp && k < ref[s].size(); k++) exp = elem_eq<T>(ref[s][k], ref[d][k]);     // element-wise, with the element type's own ==
+			if(exp && ref[s] != ref[d]) c.tag("equal-but-not-bytewise");
+			VCHECK(c, "C13", eq == exp && ne == !eq, "operator== gives %d and != gives %d, element-wise equality is %d", (int)eq, (int)ne, (int)exp); break; }
+		case 17: { int d = t.pick(S); if(!slot[d] || d == s || ref[s].empty()) break;      // near-copies: equal under the element's ==, or differing in exactly one element
+			size_t k = t.pick(ref[s].size()); int delta = t.flip() ? 16 : 1 + (int)t.pick(15);
+			c.op("v%d = v%d (copy); v%d[%zu] += %d; v%d == v%d", d, s, d, k, delta, s, d);
+			if(!ref[d].empty()) f.released_before_end = true; f.pair_op_nonempty = true;
+			*slot[d] = v; ref[d] = ref[s]; (*slot[d])[k] = T(ref[d][k] + delta); ref[d][k] += delta;
+			bool eq = v == *slot[d], ne = v != *slot[d];
+			bool exp = true; for(size_t j = 0; exp && j < ref[s].size(); j++) exp = elem_eq<T>(ref[s][j], ref[d][j]);
+			if(exp) c.tag("equal-but-not-bytewise"); else c.tag("differ-in-one-element");
+			VCHECK(c, "C13", eq == exp && ne == !eq, "operator== gives %d and != gives %d, element-wise equality is %d", (int)eq, (int)ne, (int)exp); break; }
+		case 16: if(!ref[s].empty()) { size_t k = t.pick(ref[s].size()); int x = t.flip() ? ref[s][k] + 16 : nextv++; c.op("v%d[%zu] = %d", s, k, x); v[k] = T(x); ref[s][k] = x; } break;
 		default: { unsigned k = 1 + t.pick(20); c.op("v%d push x%u", s, k); for(unsigned j = 0; j < k; j++) { int x = nextv++; v.emplace_back(x); ref[s].push_back(x); } break; }
 		}
 		thresholds(before, ref[s].size());
@@ -258,7 +282,7 @@ void run_dyn_array(Ctx &c) {
 		if(!slot[s]) op = op % 3;
 		switch(op) {
 		case 0: case 1: { if(slot[s]) { if(!ref[s].empty()) f.released_before_end = true; c.op("destroy d%d", s); c.destroy(slot[s]); slot[s] = nullptr; }
-			size_t n = t.pick(3) ? t.pick(9) : t.pick(40); c.op("d%d = dyn_array(%zu)", s, n); slot[s] = c.make<V>(n, track_alloc{}); ref[s].assign(n, 0); if(n) c.tag("dyn-nonempty"); else c.tag("dyn-size0"); break; }
+			size_t n = t.pick(3) ? t.pick(9) : t.pick(40); c.op("d%d = dyn_array(%zu)", s, n); slot[s] = c.make<V>(n, track_alloc{s}); ref[s].assign(n, 0); if(n) c.tag("dyn-nonempty"); else c.tag("dyn-size0"); break; }
 		case 2: { if(slot[s]) { c.op("destroy d%d", s); c.destroy(slot[s]); slot[s] = nullptr; } c.op("d%d = dyn_array()", s); slot[s] = c.make<V>(); ref[s].clear(); c.tag("dyn-default"); break; }
 		case 3: { int d = t.pick(S); if(d == s) break; if(slot[d]) { if(!ref[d].empty()) f.released_before_end = true; c.destroy(slot[d]); slot[d] = nullptr; } c.op("d%d = copy-construct(d%d)", d, s); slot[d] = c.make<V>(*slot[s]); ref[d] = ref[s]; if(!ref[s].empty()) f.pair_op_nonempty = true; break; }
 		case 4: { int d = t.pick(S); if(d == s) break; if(slot[d]) { c.destroy(slot[d]); slot[d] = nullptr; } c.op("d%d = move-construct(d%d)", d, s); std::vector<int> old = ref[s]; slot[d] = c.make<V>(std::move(*slot[s])); ref[d] = old; resync(*slot[s], ref[s]); if(!old.empty()) f.pair_op_nonempty = true; break; }
@@ -419,13 +443,14 @@ void run_intrusive(Ctx &c) {
 } // namespace
 
 void verif_case(Ctx &c) {
-	unsigned kind = c.t.pick(17);
+	unsigned kind = c.t.pick(18);
 	c.tagf("kind-%u", kind);
 	switch(kind) {
 	case 13: run_vector<Anchored>(c); return;
 	case 14: run_small_vector<Anchored, 4>(c); return;
 	case 15: run_dyn_array<Anchored>(c); return;
 	case 16: run_stack<Anchored>(c); return;
+	case 17: run_vector<Fuzzy>(c); return;
 	case 0: run_vector<int>(c); break;
 	case 1: run_vector<Tracked>(c); break;
 	case 2: run_small_vector<int, 4>(c); break;
